@@ -21,7 +21,7 @@ EXPLANATION = (
     " (R7) sibling guard agreement: the per-type copies of the FORMAT value decoders (Int8/Int16/Int32/Float, vector and scalar) reach their `push(None)` sites under the same edge-dominance guard signature."
     " (R8) the async BCF writer clears its record buffer before the encoder fills it; (R9) the dictionary of strings only grows: a length-changing Vec operation on StringMap.entries is a resize on one edge only of a comparison with its own length (or with a max(len, ..) length); (R10) the VCF header writer, whose text the BCF reader numbers the dictionary from, and StringMaps::try_from(&Header), which the BCF writer numbers it with, visit INFO / FILTER / FORMAT in the same order."
     " (R11) sibling shape: the end-of-vector padding loop (0..max_len - len) of every typed sample writer is enclosed by the per-sample loop only (genuine defect F43, repaired: the genotype writer padded inside the allele loop)."
-    " (R12) genotypes keep phasing: every allele code returned by the two allele encoders, the missing allele included, lies behind a test of the phasing argument (genuine defect F45, repaired). (R13) implicit first-allele phasing visits every remaining allele. (R14) array-typed lazy INFO readers build Value::Array only (F56, repaired). (R15) the int8 allele code is computed with checked arithmetic (F57, repaired).")
+    " (R12) genotypes keep phasing: every allele code returned by the two allele encoders, the missing allele included, lies behind a test of the phasing argument (genuine defect F45, repaired). (R13) implicit first-allele phasing visits every remaining allele. (R14) array-typed lazy INFO readers build Value::Array only (F56, repaired). (R15) the int8 allele code is computed with checked arithmetic (F57, repaired). (R16) the sample-side Values::len of the lazy arrays counts through the padding-dropping iterator (F60, repaired).")
 ASSUMPTIONS = ["interval reasoning is dominance-based; per-sample padding and vector length logic are value-level"]
 NOT_DECIDED = ["full record equality, per-sample padding of unequal-length vectors, float bit patterns beyond the reserved-NaN constants"]
 
@@ -284,6 +284,27 @@ def run(ctx):
         else:
             ctx.ok("C10.R15", k15, "allele code through checked_add / checked_mul", f15.loc(checked[0]))
     ctx.floor("C10.R15", "allele encoders", n15, 2)
+
+
+    ctx.rule("C10.R16", "A7 len / iter agreement of the lazy per-sample arrays: the sample-side Values::iter drops the end-of-vector padding of a "
+                        "shorter sample, so Values::len counts through that iterator and is never the raw slice length — the encoder pads a "
+                        "series with max_len - len() (genuine defect F60, repaired: a lazy BCF -> BCF copy of unequal arrays was written short)")
+    n16 = 0
+    for k16, f16 in sorted(fb.fns.items()):
+        if not f16.blocks or not re.search(r"^<noodles_bcf::record::value::array::values::Values<.*> as noodles_vcf::variant::record::samples::series::value::array::values::Values<.*>>::len$", k16):
+            continue
+        n16 += 1
+        ctx.saw_fn(f16)
+        names16 = {(c.get("f") or "") for _b, c in f16.calls()}
+        raw = [x for x in names16 if re.search(r"slice::<impl \[T\]>::len$", x)]
+        counted = [x for x in names16 if re.search(r"Iterator>?::count$", x)]
+        if counted and not raw:
+            ctx.ok("C10.R16", k16, "len() counts through the padding-dropping iterator", f16.loc())
+        else:
+            ctx.violation("C10.R16", "C10.R16/len-counts-padding/" + k16,
+                          "%s takes the raw slice length: it counts the end-of-vector padding that iter() drops, the encoder adds no padding for "
+                          "this sample and the copied series is short" % k16, f16.loc())
+    ctx.floor("C10.R16", "sample-side Values::len impls of the lazy BCF arrays", n16, 4)
 
     ctx.rule("C10.R4", "string-map lookups on decode are error exits on a missing index")
     n = 0
